@@ -109,6 +109,35 @@ def gen_composite_case(rnd):
     return f, gen_query(rnd, f)
 
 
+def gen_stat_case(rnd):
+    """targeted family: a sample standard deviation / variance (and a median) of the PARENT while a one_to_many child is reached by a dimension or a filter, several
+    child rows per parent row, parent values spread out: such an aggregate cannot be made fan-out safe by the symmetric form, so the query is either refused or must
+    equal the statistic over the distinct parent rows"""
+    f = jg.gen_forest(rnd, nmodels=2, allow_m2m=False)
+    parent, child = f["models"][0], f["models"][1]
+    parent["composite"], child["composite"] = False, False
+    parent.pop("pk", None)
+    child.pop("pk", None)
+    if rnd.random() < 0.5:
+        parent["rels"], child["rels"] = [dict(name=child["name"], type="one_to_many", foreign_key="fk_a")], []
+    else:
+        parent["rels"], child["rels"] = [], [dict(name=parent["name"], type="many_to_one", foreign_key="fk_a")]
+    n = rnd.choice([3, 4, 5])
+    parent["rows"] = [[r + 1, "k%d" % (r + 1), [1, 10, 4, 25, 7][r], rnd.choice([0, 1, 2]), rnd.choice(["a", "a", "b"]), None, None] for r in range(n)]
+    child["rows"] = []
+    for i in range(rnd.choice([5, 6, 8])):
+        k = 1 if i < 3 else rnd.randint(1, n)              # the first parent row has at least three child rows
+        child["rows"].append([i + 1, "k%d" % (i + 1), rnd.choice([1, 2, 5]), rnd.choice([0, 1, 2]), rnd.choice(["x", "y"]), k, "k%d" % k])
+    f["links"] = [(1, 0, "m2o", False)]
+    agg = rnd.choice(["stddev", "variance", "stddev", "median"])
+    mets = [(parent["name"], agg, jg.jcol("c0"), [])]
+    if rnd.random() < 0.5:
+        q = dict(dims=[], mets=mets, filters=[(child["name"], ("not", ("isnull", jg.jcol("id"))))])
+    else:
+        q = dict(dims=[(parent["name"], jg.jcol("s0"))], mets=mets, filters=[(child["name"], ("cmp", "<>", jg.jcol("s0"), sg.lit("zz")))])
+    return f, q
+
+
 def gen_detail_case(rnd):
     """targeted family: a DETAIL table -- the child's own composite primary key contains its foreign key (order lines keyed by (order id, line number)) -- declared
     one_to_many on the parent or many_to_one on the child, several lines per parent row; a sum / avg / count of the PARENT reaching the lines (dimension or filter
@@ -311,6 +340,9 @@ def run(c):
         q = gen_mixed_query(c.rng, f) if c.rng.random() < 0.25 else None
         cases.append((f, q or gen_query(c.rng, f, single_metric_model=c.rng.random() < 0.7)))
     cases += [gen_m2m_case(c.rng) for _ in range(max(10, n // 10))] + [gen_composite_case(c.rng) for _ in range(max(10, n // 10))] + [gen_detail_case(c.rng) for _ in range(max(10, n // 10))] + [gen_keydim_case(c.rng) for _ in range(max(10, n // 10))]
+    import random as _random
+    rng_stat = _random.Random(c.seed * 13 + 2)           # a stream of its own: the cases above stay what they were
+    cases += [gen_stat_case(rng_stat) for _ in range(max(8, n // 25))]
     # every fourth case under model names that contain one another (items / line_items / order_line_items / itemsx / items_raw)
     cases = [jg.rename_case(f_, q_) if k_ % 4 == 1 else (f_, q_) for k_, (f_, q_) in enumerate(cases)]
     cf = jg.corpus_forest()
